@@ -102,45 +102,89 @@ def mode_of(n, rounds):
 
 
 def prepare_pools(c, fams):
-    """TLC generators of all families side by side, meanwhile the family drivers that record seeded random traces"""
+    """TLC generators of all families side by side; meanwhile the families' own drivers are built (drift guard, recorded traces)"""
     sd = c.spec_dir("gen19")
     out = {}
 
     def one(f):
         pool, res = f.pool(c, sd)
         return f.name, pool, res
-    with ThreadPoolExecutor(max_workers=len(fams) + 1) as ex:
-        futs = [ex.submit(one, f) for f in fams]
 
-        def rec(f):
-            drv = c.build_driver(f.records)
-            o = os.path.join(c.scratch, "c19-rec-%s.ndjson" % f.records)
-            c.run_driver(drv, ["record", o], env=dict(VERIF_TIER="quick"), timeout=900)
-            return f.name, read_ndjson(o)
-        rfuts = [ex.submit(rec, f) for f in fams if f.records]
+    def drv(f):
+        d = c.build_driver(f.driver)
+        evs = None
+        if f.records:
+            o = os.path.join(c.scratch, "c19-rec-%s.ndjson" % f.driver)
+            c.run_driver(d, ["record", o], env=dict(VERIF_TIER="quick"), timeout=900)
+            evs = read_ndjson(o)
+        return f.name, d, evs
+    with ThreadPoolExecutor(max_workers=len(fams) + 2) as ex:
+        futs = [ex.submit(one, f) for f in fams]
+        dfuts = []
+        built = {}
+        for f in fams:                               # f06 and f07 share cmd/sec
+            if f.driver not in built:
+                built[f.driver] = ex.submit(drv, f)
+            dfuts.append((f, built[f.driver]))
         for fu in futs:
             name, pool, res = fu.result()
             out[name] = dict(pool=pool, states=res.distinct, transitions=res.generated, wall=res.wall)
-        for fu in rfuts:
-            name, events = fu.result()
-            f = [x for x in fams if x.name == name][0]
-            n0 = len(out[name]["pool"])
-            f.add_recorded(out[name]["pool"], events)
-            out[name]["recorded"] = len(out[name]["pool"]) - n0
+        for f, fu in dfuts:
+            _, d, events = fu.result()
+            out[f.name]["driver"] = d
+            if f.records:
+                n0 = len(out[f.name]["pool"])
+                f.add_recorded(out[f.name]["pool"], events)
+                out[f.name]["recorded"] = len(out[f.name]["pool"]) - n0
     return out
 
 
+def write_cases(d, f, plan):
+    cases, blocks, lo = [], [], 0
+    for name, cs in plan:
+        if not cs: continue
+        cases += cs; blocks.append([lo, lo + len(cs)]); lo += len(cs)
+    cp = os.path.join(d, "cases-%s.json" % f.name)
+    json.dump(cases, open(cp, "w"), separators=(",", ":"))
+    return cp, cases, blocks
+
+
+def run_seq(c, drv, f, cases_path, order, tag):
+    """the given order of cases, single-threaded, in a fresh process of the concurrent driver"""
+    d = c.sub("seq-%s" % f.name)
+    k = len(os.listdir(d))
+    op = os.path.join(d, "%s-%d.idx" % (tag, k)); out = os.path.join(d, "%s-%d.ndjson" % (tag, k))
+    open(op, "w").write("".join("%d\n" % i for i in order))
+    c.run_driver(drv, ["runseq", f.name, cases_path, op, out], env=dict(GOMAXPROCS="1", GORACE="halt_on_error=0 exitcode=0 log_path=%s/race" % d), timeout=900)
+    return read_ndjson(out)
+
+
+def drift_guard(c, drv, fams, pools, plans, d):
+    """The concurrent driver carries generated copies of the families' per-operation functions (tools/conc_sync.py).  They
+    are in step with the family drivers iff a sequential run of the copies writes, event by event, what the family
+    driver's own replay writes for the same case file."""
+    def one(f):
+        cp, cases, _ = write_cases(d, f, plans[f.name])
+        ref = os.path.join(d, "ref-%s.ndjson" % f.name)
+        c.run_driver(pools[f.name]["driver"], ["replay", cp, ref], timeout=900)
+        mine = run_seq(c, drv, f, cp, range(len(cases)), "drift")
+        theirs = read_ndjson(ref)
+        if mine == theirs: return None
+        k = next((i for i, (x, y) in enumerate(zip(mine, theirs)) if x != y), min(len(mine), len(theirs)))
+        return "%s: harness/cmd/conc/%s is out of step with harness/cmd/%s (event %d of %d/%d differs: %s | %s) - run tools/conc_sync.py" % (
+            f.name, "fsec" if f.driver == "sec" else f.name, f.driver, k, len(mine), len(theirs), (mine[k:k + 1] or ["-"])[0][:160], (theirs[k:k + 1] or ["-"])[0][:160])
+    with ThreadPoolExecutor(max_workers=4) as ex:
+        return [m for m in ex.map(one, fams) if m]
+
+
 def run_conc(c, drv, fams, plans, n, procs, rounds, tag):
-    """one configuration: manifest + case files, the race-detector run, race reports; returns {family: [(gid, events, idx)]}"""
+    """one configuration: manifest + case files, the race-detector run, race reports; returns {family: [(gid, events, order)]}"""
     d = c.sub("conc-" + tag)
     man = dict(families=[])
+    paths = {}
     for f in fams:
-        cases, blocks, lo = [], [], 0
-        for name, cs in plans[f.name]:
-            if not cs: continue
-            cases += cs; blocks.append([lo, lo + len(cs)]); lo += len(cs)
-        cp = os.path.join(d, "cases-%s.json" % f.name)
-        json.dump(cases, open(cp, "w"), separators=(",", ":"))
+        cp, cases, blocks = write_cases(d, f, plans[f.name])
+        paths[f.name] = cp
         man["families"].append(dict(name=f.name, cases=cp, blocks=blocks))
     mp = os.path.join(d, "manifest.json"); json.dump(man, open(mp, "w"))
     env = dict(GOMAXPROCS=str(procs), GORACE="halt_on_error=0 exitcode=0 log_path=%s/race" % d)
@@ -154,59 +198,43 @@ def run_conc(c, drv, fams, plans, n, procs, rounds, tag):
         for g in range(n):
             base = os.path.join(d, "g.%s.%d" % (f.name, g))
             if not os.path.exists(base + ".ndjson"): raise Infra("goroutine trace %s missing" % base)
-            idx = [tuple(int(x) for x in ln.split()) for ln in open(base + ".idx") if ln.strip()]
-            evs = read_ndjson(base + ".ndjson")
-            if sum(k for _, k in idx) != len(evs): raise Infra("trace %s and its case index disagree" % base)
-            rows.append((g, evs, idx))
+            order = [int(ln.split()[0]) for ln in open(base + ".idx") if ln.strip()]
+            rows.append((g, read_ndjson(base + ".ndjson"), order))
         traces[f.name] = rows
-    return traces, lib, json.load(open(mp))
-
-
-def seq_confirm(c, drv, f, cases):
-    """the same cases, single-threaded, in a fresh process: the set of (case number, event within the case, verdict)"""
-    d = c.sub("seq-%s-%d" % (f.name, int(time.time() * 1000) % 100000))
-    cp = os.path.join(d, "cases.json"); json.dump(cases, open(cp, "w"))
-    mp = os.path.join(d, "manifest.json")
-    json.dump(dict(families=[dict(name=f.name, cases=cp, blocks=[[0, len(cases)]])]), open(mp, "w"))
-    c.run_driver(drv, ["runpar", mp, os.path.join(d, "g"), 1, 1, "staggered"], env=dict(GOMAXPROCS="1", GORACE="halt_on_error=0 exitcode=0 log_path=%s/race" % d), timeout=600)
-    base = os.path.join(d, "g.%s.0" % f.name)
-    evs = read_ndjson(base + ".ndjson")
-    where = []
-    for ln in open(base + ".idx"):
-        ci, k = (int(x) for x in ln.split())
-        where += [(ci, j) for j in range(k)]
-    cc = copy.copy(c); cc.cov = dict(states=0, transitions=0, traces_validated_against_impl=0)
-    out = set()
-    for i, t in cc.validate(f.trace, evs, shards=1):
-        v = f.verdict(t)
-        if v is not None and i < len(where): out.add((where[i][0], where[i][1], v))
-    return out, evs, where
+    return traces, lib, man, paths
 
 
 def family_others(c, thorough, fams, pools, drv):
     scale = 2 if thorough else 1
-    per_fam = {f.name: dict(events=[], origin=[]) for f in fams}       # origin: (tag, gid, case object, event-in-case, config)
+    per_fam = {f.name: dict(events=[], origin=[], runs={}) for f in fams}       # origin: (tag, gid, index in that goroutine's trace)
     races = {}
     t_run = time.time()
+    first = True
     for n, procs, rounds in (CONFIGS_T if thorough else CONFIGS_Q):
         tag = "%d-%d" % (n, procs)
         plans = {}
         for f in fams:
             rng = random.Random("%d/%s/%s" % (c.seed, f.name, tag))
             plans[f.name] = f.plan(pools[f.name]["pool"], rng, 1 if f.name in ("f06", "f07") else scale)
-        traces, lib, man = run_conc(c, drv, fams, plans, n, procs, rounds, tag)
+        if first:
+            first = False
+            drifted = drift_guard(c, drv, fams, pools, plans, c.sub("drift"))
+            if drifted and not os.environ.get("VERIF_C19_SKIP_DRIFTED"):
+                raise Infra("the concurrent driver's copies are out of step with a family driver:\n" + "\n".join(drifted))
+            for m in drifted:        # development only: leave the family out, loudly
+                c.note("LEFT OUT (VERIF_C19_SKIP_DRIFTED): " + m)
+                fams = [f for f in fams if f.name != m.split(":")[0]]
+            c.cov["drift_guard"] = "family driver replay == sequential run of the concurrent driver's copies, event by event: %s" % ", ".join(f.name for f in fams)
+        traces, lib, man, paths = run_conc(c, drv, fams, plans, n, procs, rounds, tag)
         cfg = dict(goroutines=n, gomaxprocs=procs, rounds=rounds, schedule=mode_of(n, rounds))
         for blk in lib:
-            key = race_fn(blk)
-            races.setdefault(key, (cfg, blk))
+            races.setdefault(race_fn(blk), (cfg, blk))
         for f in fams:
-            cases = [x for _, cs in plans[f.name] for x in cs]
             acc = per_fam[f.name]
-            for g, evs, idx in traces[f.name]:
-                j = 0
-                for ci, k in idx:
-                    for q in range(k):
-                        acc["events"].append(evs[j]); acc["origin"].append((tag, g, cases[ci], q, cfg)); j += 1
+            for g, evs, order in traces[f.name]:
+                acc["runs"][(tag, g)] = dict(events=evs, order=order, cases=paths[f.name], cfg=cfg)
+                acc["events"] += evs
+                acc["origin"] += [(tag, g, i) for i in range(len(evs))]
                 c.count_distinct((f.name, tag, g))
         c.sample(dict(config="conc-" + tag, schedule=cfg["schedule"], goroutine_traces={f.name: len(traces[f.name]) for f in fams},
                       blocks={x["name"]: len(x["blocks"]) for x in man["families"]}))
@@ -236,32 +264,37 @@ def family_others(c, thorough, fams, pools, drv):
             v = f.verdict(t)
             if v is not None: bad.append((i, v, t))
         if not bad: continue
-        # sequential behaviour of the implicated cases (fresh process, one goroutine)
-        uniq, order = {}, []
+        # The sequential behaviour: the exact case order of that goroutine, repeated single-threaded in a fresh process.
+        # An event the sequential run writes identically is not a concurrency effect (the family's own finding).
+        seq_runs, same_line, nseq, seen = {}, set(), 0, {}
         for i, v, t in bad:
-            key = json.dumps(acc["origin"][i][2], sort_keys=True)
-            if key not in uniq:
-                if len(order) >= 400: continue
-                uniq[key] = len(order); order.append(acc["origin"][i][2])
-        seq, _, _ = seq_confirm(c, drv, f, order)
-        nseq, seen = 0, {}
-        for i, v, t in bad:
-            tag, g, case, q, cfg = acc["origin"][i]
-            key = json.dumps(case, sort_keys=True)
-            if key not in uniq: continue
-            if (uniq[key], q, v) in seq:
-                nseq += 1; continue          # the sequential run shows the same mismatch: the family's own finding, not C19
+            tag, g, k = acc["origin"][i]
+            line = acc["events"][i]
+            if line in same_line:
+                nseq += 1; continue
+            run = acc["runs"][(tag, g)]
+            if (tag, g) not in seq_runs:
+                if len(seq_runs) >= 120:
+                    raise Infra("%s: more than 120 goroutine traces with distinct mismatching events - not triaged" % f.name)
+                seq_runs[(tag, g)] = run_seq(c, drv, f, run["cases"], run["order"], tag)
+            sq = seq_runs[(tag, g)]
+            if len(sq) == len(run["events"]) and sq[k] == line:
+                same_line.add(line); nseq += 1; continue
             seen[v] = seen.get(v, 0) + 1
             if seen[v] > 2: continue
-            e = json.loads(acc["events"][i])
-            c.report("concurrent-%s-%s" % (f.pid, v[0]), str(v[1]) or "wrong-result",
-                     "%s judged by %s: goroutine %d of %d (GOMAXPROCS=%d, %s): the result of %s differs from the sequential specification (%s) - a single-threaded run of the same case in a fresh process does not show it" % (
-                         f.name, f.trace, g, cfg["goroutines"], cfg["gomaxprocs"], cfg["schedule"], v[0], v[1] or "value"),
-                     dict(config=dict(cfg, family=f.name, goroutine=g), case=case, observed=e if len(acc["events"][i]) < 4000 else acc["events"][i][:4000], mismatch=list(t),
-                          how="harness/cmd/conc runpar <manifest with this case> <prefix> N rounds alternate under -race with other goroutines working on different values; validate each <prefix>.%s.<g>.ndjson with spec/trace/%s" % (f.name, f.trace)))
+            cfg = run["cfg"]
+            what = ("%s judged by %s: goroutine %d of %d (GOMAXPROCS=%d, %s), event %d: the result of %s is not the sequential specification's (%s), "
+                    "and the same cases run single-threaded in a fresh process give %s" % (
+                        f.name, f.trace, g, cfg["goroutines"], cfg["gomaxprocs"], cfg["schedule"], k, v[0], v[1] or "value",
+                        "a different event there" if len(sq) == len(run["events"]) else "%d events instead of %d" % (len(sq), len(run["events"]))))
+            c.report("concurrent-%s-%s" % (f.pid, v[0]), str(v[1]) or "wrong-result", what,
+                     dict(config=dict(cfg, family=f.name, goroutine=g, event=k), observed=json.loads(line) if len(line) < 4000 else line[:4000],
+                          sequential=(json.loads(sq[k]) if len(sq[k]) < 4000 else sq[k][:4000]) if k < len(sq) else None, mismatch=list(t),
+                          how="harness/cmd/conc runpar <manifest> <prefix> N rounds alternate (race build, other goroutines working on different values); "
+                              "validate <prefix>.%s.<g>.ndjson with spec/trace/%s; conc runseq %s <cases> <prefix>.%s.<g>.idx out.ndjson gives the sequential events" % (f.name, f.trace, f.name, f.name)))
         stats[f.name]["mismatches"] = dict(total=len(bad), also_sequential=nseq, concurrent_only=sum(seen.values()))
         if nseq:
-            c.note("%s: %d mismatching events on concurrent traces are reproduced by a single-threaded run of the same cases (the finding of %s, not a concurrency effect)" % (f.name, nseq, f.pid))
+            c.note("%s: %d mismatching events on concurrent traces are written identically by a single-threaded run of the same cases (the finding of %s, not a concurrency effect)" % (f.name, nseq, f.pid))
     t_val = time.time() - t_val
     c.cov["families"] = stats
     c.cov["conc_run_s"] = round(t_run, 1); c.cov["conc_validation_s"] = round(t_val, 1)
